@@ -6,8 +6,9 @@ that runs it on an initiator and a responder session fed with the values the two
 """
 from bumble import smp
 from bumble.core import PhysicalTransport
-from pyvc.contracts import (Any, Bool, Bytes, Callback, Const, Inst, Int, IntRange, OneOf, Opaque, Opt, contract, iff, implies,
-                            lemma, model)
+from pyvc.contracts import (Any, Bool, Bytes, Callback, Const, Inst, Int, IntRange, ListOf, OneOf, Opaque, Opt, Str, contract, iff,
+                            implies, lemma, model)
+from pyvc.ext_c13 import stub_class
 from spec import smp as S
 
 ENVIRONMENT = [
@@ -208,10 +209,12 @@ model('ghost:Manager#p', fields={}, methods={
 model('bumble.hci:Address#p', fields=dict(address_type=IntRange(0, 3)))
 ADDRESS = Inst('bumble.hci:Address#p')
 model('ghost:Link#p', fields=dict(transport=OneOf(PhysicalTransport.LE, PhysicalTransport.BR_EDR), peer_address=ADDRESS))
-model('bumble.keys:PairingKeys.Key', fields=dict(value=Bytes, authenticated=Bool, ediv=Opt(Int), rand=Opt(Bytes)))
+model('bumble.keys:PairingKeys.Key', fields=dict(value=Bytes, authenticated=Bool, ediv=OneOf(None, Int), rand=OneOf(None, Bytes)))
 KEY = Inst('bumble.keys:PairingKeys.Key')
-model('bumble.keys:PairingKeys', fields=dict(address_type=Opt(Int), ltk=Opt(KEY), ltk_central=Opt(KEY), ltk_peripheral=Opt(KEY), irk=Opt(KEY),
-                                            csrk=Opt(KEY), link_key=Opt(KEY), link_key_type=Opt(Int)))
+# OneOf(None, T) fields of an instance are decided lazily (on first read): no case split for fields a path never reads
+NOKEY = OneOf(None, KEY)
+model('bumble.keys:PairingKeys', fields=dict(address_type=OneOf(None, Int), ltk=NOKEY, ltk_central=NOKEY, ltk_peripheral=NOKEY, irk=NOKEY, csrk=NOKEY,
+                                            link_key=NOKEY, link_key_type=OneOf(None, Int)))
 KEYS = Inst('bumble.keys:PairingKeys')
 # EDIV / Rand are only copied by on_pairing (never inspected): opaque values compared by identity, so that "None or a
 # value" costs no case split here; the reconnection lemma (L4) uses typed ones
@@ -222,6 +225,7 @@ model(
         peer_bd_addr=OneOf(None, ADDRESS), ctkd_task=OneOf(None, Opaque('task')), pairing_method=IntRange(0, 4), sc=Bool, is_initiator=Bool,
         ltk=Bytes, ltk_ediv=Opaque('ediv'), ltk_rand=Opaque('rand'), peer_ltk=OneOf(None, Bytes), peer_ediv=Opaque('ediv'), peer_rand=Opaque('rand'),
         peer_identity_resolving_key=OneOf(None, Bytes), peer_signature_key=OneOf(None, Bytes), link_key=OneOf(None, Bytes),
+        initiator_key_distribution=IntRange(0, 15), responder_key_distribution=IntRange(0, 15),
     ),
 )
 SESSION_P = Inst('bumble.smp:Session#p')
@@ -229,7 +233,7 @@ P_GHOST = dict(stored=Int, failed=Int, keys=Const(None), address=Const(None), re
 
 
 def key_is(key, value, ediv, rand):
-    return key is not None and key.value == value and key.ediv is ediv and key.rand is rand
+    return key is not None and key.value == value and key.ediv == ediv and key.rand == rand
 
 
 def other_key_is(key, value):
@@ -237,30 +241,42 @@ def other_key_is(key, value):
     return (key is None) if value is None else (key is not None and key.value == value)
 
 
+def distributes_enc_key(session):
+    """this device's LTK, EDIV and Rand were sent to the peer (legacy pairing): EncKey is set in the negotiated
+    key distribution field of its role (Vol 3 Part H 3.6.1)"""
+    mask = session.initiator_key_distribution if session.is_initiator else session.responder_key_distribution
+    return mask % 2 == 1
+
+
 def stored_keys_post(k, self, address):
-    """what the PairingKeys handed to the store hold"""
+    """what the PairingKeys handed to the store hold.  The two legacy slots are named after the role in which the
+    *owner of the store* uses them (that is how Device.encrypt and Device.get_long_term_key read them): `ltk_central`
+    is the key it encrypts with as Central = the LTK distributed by the peer, with the peer's EDIV/Rand;
+    `ltk_peripheral` is the key it answers with as Peripheral = the LTK it distributed itself (Vol 3 Part H 2.4.2.3:
+    the distributing device uses its LTK when it is the responding device).  A key that was not exchanged is not there."""
     if k is None:
-        return [False, False, False, False, False, False]
-    legacy_le = not self.sc and self.connection.transport == PhysicalTransport.LE
-    peer_value = self.peer_ltk if self.peer_ltk else b''
+        return [False, False, False, False, False, False, False]
     hon = all_keys_honest(k, self.pairing_method)
-    return [
-        hon[0] and hon[1] and hon[2] and hon[3] and hon[4] and hon[5],
-        # Secure Connections / CTKD: one LTK; legacy: the key this device distributed and the key the peer distributed,
-        # each with its EDIV/Rand, one in each of the two role slots
-        implies(not legacy_le, key_is(k.ltk, self.ltk, None, None) and k.ltk_central is None and k.ltk_peripheral is None),
-        implies(
-            legacy_le,
-            k.ltk is None
-            and (
-                (key_is(k.ltk_central, self.ltk, self.ltk_ediv, self.ltk_rand) and key_is(k.ltk_peripheral, peer_value, self.peer_ediv, self.peer_rand))
-                or (key_is(k.ltk_central, peer_value, self.peer_ediv, self.peer_rand) and key_is(k.ltk_peripheral, self.ltk, self.ltk_ediv, self.ltk_rand))
-            ),
-        ),
+    return [hon[0] and hon[1] and hon[2] and hon[3] and hon[4] and hon[5]] + ltk_slots_post(k, self) + [
         other_key_is(k.irk, self.peer_identity_resolving_key) and other_key_is(k.csrk, self.peer_signature_key) and other_key_is(k.link_key, self.link_key),
         address is (self.peer_bd_addr if self.peer_bd_addr is not None else self.connection.peer_address),
         k.address_type == address.address_type,
     ]
+
+
+def ltk_slots_post(k, self):
+    """the long term keys among the stored keys"""
+    legacy_le = not self.sc and self.connection.transport == PhysicalTransport.LE
+    return [
+        # Secure Connections / CTKD: one LTK
+        implies(not legacy_le, key_is(k.ltk, self.ltk, None, None) and k.ltk_central is None and k.ltk_peripheral is None),
+        implies(legacy_le, k.ltk is None and ((k.ltk_central is None) if self.peer_ltk is None else key_is(k.ltk_central, self.peer_ltk, self.peer_ediv, self.peer_rand))),
+        implies(legacy_le, key_is(k.ltk_peripheral, self.ltk, self.ltk_ediv, self.ltk_rand) if distributes_enc_key(self) else (k.ltk_peripheral is None)),
+    ]
+
+
+STORED_NAMES = ['authenticated-only-if-mitm-protected', 'sc-single-ltk', 'legacy-central-slot-holds-peer-ltk', 'legacy-peripheral-slot-holds-own-ltk',
+                'other-keys-iff-received', 'filed-under-identity-address', 'address-type']
 
 
 def on_pairing_post(self, old, ghost):
@@ -281,9 +297,349 @@ contract(
     params=dict(self=SESSION_P),
     ghost=P_GHOST,
     ensures=on_pairing_post,
-    ensures_names=['completed', 'stored-once', 'no-failure-report', 'initiator-future-resolved', 'nothing-stored-again',
-                   'authenticated-only-if-mitm-protected', 'sc-single-ltk', 'legacy-own-and-peer-ltk', 'other-keys-iff-received',
-                   'filed-under-identity-address', 'address-type'],
+    ensures_names=['completed', 'stored-once', 'no-failure-report', 'initiator-future-resolved', 'nothing-stored-again'] + STORED_NAMES,
     modifies=['self.completed', 'self.ctkd_task', 'ghost.stored', 'ghost.keys', 'ghost.address', 'ghost.result_done', 'ghost.result_ok'],
     inline=['PairingKeys.__init__', 'PairingKeys.Key.__init__'],
+)
+
+
+# ---------------------------------------------------------------------------
+# L4: key agreement on reconnection.  Device.encrypt (central: which key goes into HCI_LE_Enable_Encryption) and
+# Device.get_long_term_key (peripheral: which key answers the controller's LE Long Term Key Request)
+# ---------------------------------------------------------------------------
+import asyncio  # noqa: E402
+import contextlib  # noqa: E402
+
+from bumble import core as _core, device as _device, hci as _hci, utils as _utils  # noqa: E402
+
+
+CMD_LE_ENABLE_ENCRYPTION = 1  # which HCI command was sent last
+CMD_SET_CONNECTION_ENCRYPTION = 2
+
+
+def store_get(ghost, name):
+    """KeyStore.get(str(peer address)): the entry filed for this peer at pairing, or nothing"""
+    return ghost.entry
+
+
+def dev_send_async_command(ghost, command):
+    """Device.send_async_command: records the HCI command handed to the controller"""
+    ghost.n_sent = ghost.n_sent + 1
+    if isinstance(command, _hci.HCI_LE_Enable_Encryption_Command):
+        ghost.last_sent = CMD_LE_ENABLE_ENCRYPTION
+        ghost.cmd_handle = command.connection_handle
+        ghost.cmd_rand = command.random_number
+        ghost.cmd_ediv = command.encrypted_diversifier
+        ghost.cmd_key = command.long_term_key
+    else:
+        ghost.last_sent = CMD_SET_CONNECTION_ENCRYPTION
+
+
+def smp_get_ltk(ghost, connection, rand, ediv):
+    """Manager.get_long_term_key: the key of a pairing session in progress on this connection; on a later
+    connection there is none"""
+    return ghost.session_key
+
+
+def conn_cancel_on_disconnection(ghost, awaitable):
+    return None
+
+
+model('ghost:KeyStore', fields={}, methods={'get': Callback('get', effect=store_get, is_async=True)})
+model('ghost:SmpManager', fields={}, methods={'get_long_term_key': Callback('get_long_term_key', effect=smp_get_ltk)})
+model(
+    'bumble.device:Connection#e',
+    fields=dict(handle=IntRange(0, 0xEFF), transport=OneOf(PhysicalTransport.LE, PhysicalTransport.BR_EDR), role=OneOf(_hci.Role.CENTRAL, _hci.Role.PERIPHERAL),
+                peer_address=Opaque('address')),
+    methods={'cancel_on_disconnection': Callback('cancel_on_disconnection', effect=conn_cancel_on_disconnection, is_async=True)},
+)
+CONN_E = Inst('bumble.device:Connection#e')
+
+
+def dev_lookup_connection(ghost, handle):
+    """Device.lookup_connection: the connection with that handle (ghost.conn), or None"""
+    assert ghost.conn is None or ghost.conn.handle == handle, 'lookup-by-own-handle'
+    return ghost.conn
+
+
+model(
+    'bumble.device:Device#e',
+    fields=dict(keystore=OneOf(None, Inst('ghost:KeyStore')), smp_manager=Inst('ghost:SmpManager')),
+    methods={
+        'send_async_command': Callback('send_async_command', effect=dev_send_async_command, is_async=True),
+        'lookup_connection': Callback('lookup_connection', effect=dev_lookup_connection),
+    },
+)
+DEVICE_E = Inst('bumble.device:Device#e')
+E_GHOST = dict(entry=OneOf(None, KEYS), cmd_handle=Int, cmd_rand=Bytes, cmd_ediv=Int, cmd_key=Bytes, n_sent=Int, last_sent=Int, session_key=OneOf(None, Bytes),
+               conn=OneOf(None, CONN_E))
+model('ghost:Loop', fields={}, methods={'create_future': Callback('create_future', effect=lambda ghost: 'future')})
+model('ghost:Watcher', fields={}, methods={'on': Callback('on', effect=lambda ghost, emitter, event: (lambda handler: handler))})
+ENCRYPT_STUBS = {
+    asyncio.get_running_loop: Callback('get_running_loop', returns=Inst('ghost:Loop')),
+}
+stub_class(_utils.EventWatcher, 'ghost:Watcher')
+
+
+def central_key(keys):
+    """the (key, Rand, EDIV) a device holding `keys` for the peer encrypts with as Central, or None when it has none:
+    the Secure Connections LTK (Rand = EDIV = 0, Vol 3 Part H 2.4.4.1 / Vol 6 Part B 5.1.3) or else the legacy
+    LTK it keeps for the Central role with the Rand/EDIV that identify it"""
+    if keys.ltk is not None:
+        return (keys.ltk.value, bytes(8), 0)
+    if keys.ltk_central is not None:
+        return (keys.ltk_central.value, keys.ltk_central.rand if keys.ltk_central.rand else b'', keys.ltk_central.ediv if keys.ltk_central.ediv else 0)
+    return None
+
+
+def command_is(ghost, want):
+    return want is not None and ghost.cmd_key == want[0] and ghost.cmd_rand == want[1] and ghost.cmd_ediv == want[2]
+
+
+def encrypt_post(self, connection, enable, old, ghost):
+    le = connection.transport == PhysicalTransport.LE
+    want = central_key(ghost.entry) if le and ghost.entry is not None else None
+    return [
+        ghost.n_sent == old.ghost.n_sent + 1,
+        ghost.last_sent == (CMD_LE_ENABLE_ENCRYPTION if le else CMD_SET_CONNECTION_ENCRYPTION),
+        implies(le, connection.role == _hci.Role.CENTRAL and ghost.cmd_handle == connection.handle),
+        implies(le, command_is(ghost, want)),
+    ]
+
+
+contract(
+    'bumble.device:Device.encrypt',
+    prop='C13',
+    params=dict(self=DEVICE_E, connection=CONN_E, enable=Bool),
+    ghost=E_GHOST,
+    ensures=encrypt_post,
+    ensures_names=['one-command', 'which-command', 'only-as-central', 'key-rand-ediv-from-the-store'],
+    raises={
+        _core.InvalidArgumentError: lambda connection, enable, old, ghost: [not enable and connection.transport == PhysicalTransport.LE, ghost.n_sent == old.ghost.n_sent],
+        # nothing to encrypt with: no request is made
+        _core.InvalidOperationError: lambda self, connection, old, ghost: [
+            connection.transport == PhysicalTransport.LE and (self.keystore is None or ghost.entry is None or central_key(ghost.entry) is None),
+            ghost.n_sent == old.ghost.n_sent,
+        ],
+        _core.InvalidStateError: lambda connection, old, ghost: [connection.transport == PhysicalTransport.LE and connection.role != _hci.Role.CENTRAL, ghost.n_sent == old.ghost.n_sent],
+    },
+    modifies=['ghost.cmd_handle', 'ghost.cmd_rand', 'ghost.cmd_ediv', 'ghost.cmd_key', 'ghost.n_sent', 'ghost.last_sent'],
+    stubs=ENCRYPT_STUBS,
+    with_enter=lambda path, cm, item=None: cm,
+    with_exit=lambda path, cm: None,
+)
+
+
+def peripheral_key(keys, role):
+    """the key a device holding `keys` for the peer answers the controller's Long Term Key Request with: the Secure
+    Connections LTK, or else the legacy LTK it keeps for the role it has on this connection (the request only ever
+    reaches the Peripheral, Vol 6 Part B 5.1.3.1)"""
+    if keys.ltk is not None:
+        return keys.ltk.value
+    if role == _hci.Role.CENTRAL and keys.ltk_central is not None:
+        return keys.ltk_central.value
+    if role == _hci.Role.PERIPHERAL and keys.ltk_peripheral is not None:
+        return keys.ltk_peripheral.value
+    return None
+
+
+def get_ltk_post(self, connection_handle, rand, ediv, res, ghost):
+    conn = ghost.conn
+    if conn is None:
+        return [res is None]
+    if ghost.session_key is not None:
+        return [res is not None and res == ghost.session_key]  # a pairing session on this connection answers first
+    if self.keystore is None or ghost.entry is None:
+        return [res is None]
+    want = peripheral_key(ghost.entry, conn.role)
+    return [(res is None) if want is None else (res is not None and res == want)]
+
+
+contract(
+    'bumble.device:Device.get_long_term_key',
+    prop='C13',
+    params=dict(self=DEVICE_E, connection_handle=IntRange(0, 0xEFF), rand=Bytes, ediv=Int),
+    ghost=E_GHOST,
+    requires=lambda connection_handle, ghost: [ghost.conn is None or ghost.conn.handle == connection_handle],
+    ensures=get_ltk_post,
+    ensures_names=['answer-from-session-or-store'],
+    returns=Opt(Bytes),
+    modifies=[],
+)
+
+
+# ---------------------------------------------------------------------------
+# L4 lemmas: after pairing, on a later connection, the key the Peripheral's store yields for the Central's
+# (EDIV, Rand) is the key the Central encrypts with -- in the same roles as at pairing time and in swapped roles,
+# legacy and Secure Connections, for every negotiated key distribution.
+# ---------------------------------------------------------------------------
+def ctl_select(ghost, keys, conn):
+    """ghost control: from now on the key-store stub yields `keys` and lookup_connection yields `conn`"""
+    ghost.entry = keys
+    ghost.conn = conn
+    ghost.session_key = None  # the pairing sessions ended with the connection they ran on
+
+
+def ctl_request(ghost):
+    return (ghost.cmd_key, ghost.cmd_rand, ghost.cmd_ediv)
+
+
+model('ghost:Control', fields={}, methods={'select': Callback('select', effect=ctl_select), 'request': Callback('request', effect=ctl_request)})
+CONTROL = Inst('ghost:Control')
+# typed view of a session as on_pairing leaves it: data only (nothing of it runs in reconnection_keys_agree)
+model(
+    'bumble.smp:Session#r',
+    fields=dict(
+        manager=Inst('ghost:Manager#p'), connection=Inst('ghost:Link#p'), completed=Bool, pairing_result=Const(None),
+        peer_bd_addr=OneOf(None, ADDRESS), ctkd_task=Const(None), pairing_method=IntRange(0, 4), sc=Bool, is_initiator=Bool,
+        # peer_ediv / peer_rand are read only when peer_ltk is there (they arrive together: Master Identification is expected iff
+        # Encryption Information is, compute_peer_expected_distributions)
+        ltk=Bytes, ltk_ediv=Int, ltk_rand=Bytes, peer_ltk=OneOf(None, Bytes), peer_ediv=Int, peer_rand=Bytes,
+        peer_identity_resolving_key=OneOf(None, Bytes), peer_signature_key=OneOf(None, Bytes), link_key=OneOf(None, Bytes),
+        initiator_key_distribution=IntRange(0, 15), responder_key_distribution=IntRange(0, 15),
+    ),
+)
+SESSION_R = Inst('bumble.smp:Session#r')
+
+
+def received_is_distributed(receiver, sender):
+    """what `receiver` got in Encryption Information / Master Identification is what `sender` distributed -- iff the
+    negotiated key distribution says `sender` distributes its EncKey (the key distribution phase completes only when
+    every expected command has arrived: check_key_distribution)"""
+    if distributes_enc_key(sender):
+        return (receiver.peer_ltk is not None
+                and receiver.peer_ltk == sender.ltk and receiver.peer_ediv == sender.ltk_ediv and receiver.peer_rand == sender.ltk_rand)
+    return receiver.peer_ltk is None
+
+
+def same_pairing(si, sr):
+    """the two sessions of one pairing: roles, negotiated flags and key distribution, the Secure Connections LTK both
+    derive (f5 of the same inputs: crypto, C14), and the legacy keys each received from the other"""
+    return [
+        si.is_initiator and not sr.is_initiator,
+        si.connection.transport == PhysicalTransport.LE and sr.connection.transport == PhysicalTransport.LE,
+        si.sc == sr.sc,
+        si.initiator_key_distribution == sr.initiator_key_distribution and si.responder_key_distribution == sr.responder_key_distribution,
+        implies(si.sc, si.ltk == sr.ltk),
+        implies(not si.sc, received_is_distributed(si, sr) and received_is_distributed(sr, si)),
+        len(si.ltk) == 16 and len(sr.ltk) == 16,
+    ]
+
+
+def reconnect_and_compare(ctl, central_keys, peripheral_keys, cdev, pdev, cconn, pconn):
+    """the Central encrypts the new connection from its store; the Peripheral's long-term-key provider is asked for
+    the Rand/EDIV of that request"""
+    ctl.select(central_keys, cconn)
+    try:
+        cdev.encrypt(cconn, True)
+    except _core.InvalidOperationError:
+        return  # the Central holds no key for this peer: no encryption request is made (pairing is needed again)
+    key, rand, ediv = ctl.request()
+    ctl.select(peripheral_keys, pconn)
+    answer = pdev.get_long_term_key(pconn.handle, rand, ediv)
+    assert answer is not None, 'peripheral-has-a-key-for-the-request'
+    assert answer == key, 'peripheral-key-is-central-key'
+
+
+def store_after_pairing(s, auth):
+    """the PairingKeys a store holds after Session.on_pairing, as far as long term keys go: ltk_slots_post (a
+    postcondition of on_pairing) determines every field of them except the `authenticated` flags, which are
+    arbitrary here"""
+    k = _keys.PairingKeys()
+    if s.sc:
+        k.ltk = _keys.PairingKeys.Key(value=s.ltk, authenticated=auth)
+    else:
+        if s.peer_ltk is not None:
+            k.ltk_central = _keys.PairingKeys.Key(value=s.peer_ltk, authenticated=auth, ediv=s.peer_ediv, rand=s.peer_rand)
+        if distributes_enc_key(s):
+            k.ltk_peripheral = _keys.PairingKeys.Key(value=s.ltk, authenticated=auth, ediv=s.ltk_ediv, rand=s.ltk_rand)
+    return k
+
+
+def lemma_reconnection(ctl, si, sr, auth_i, auth_r, cdev, pdev, cconn, pconn, swapped):
+    ki = store_after_pairing(si, auth_i)
+    kr = store_after_pairing(sr, auth_r)
+    post = ltk_slots_post(ki, si) + ltk_slots_post(kr, sr)
+    assert post[0] and post[1] and post[2] and post[3] and post[4] and post[5], 'stores-are-as-on_pairing-leaves-them'
+    if swapped:
+        reconnect_and_compare(ctl, kr, ki, cdev, pdev, cconn, pconn)
+    else:
+        reconnect_and_compare(ctl, ki, kr, cdev, pdev, cconn, pconn)
+
+
+RECONNECT_PARAMS = dict(cdev=DEVICE_E, pdev=DEVICE_E, cconn=CONN_E, pconn=CONN_E, swapped=Bool)
+
+
+def reconnection(cdev, pdev, cconn, pconn):
+    """a later LE connection between the two devices, each with its key store"""
+    return [
+        cdev.keystore is not None and pdev.keystore is not None,
+        cconn.transport == PhysicalTransport.LE and pconn.transport == PhysicalTransport.LE,
+        cconn.role == _hci.Role.CENTRAL and pconn.role == _hci.Role.PERIPHERAL,
+    ]
+
+
+lemma(
+    'reconnection_keys_agree',
+    lemma_reconnection,
+    prop='C13',
+    params=dict(ctl=CONTROL, si=SESSION_R, sr=SESSION_R, auth_i=Bool, auth_r=Bool, **RECONNECT_PARAMS),
+    ghost=dict(E_GHOST, entry=Const(None), conn=Const(None), session_key=Const(None)),
+    requires=lambda si, sr, cdev, pdev, cconn, pconn: same_pairing(si, sr) + reconnection(cdev, pdev, cconn, pconn),
+    inline=['PairingKeys.__init__', 'PairingKeys.Key.__init__'],
+    uses=['bumble.device:Device.encrypt', 'bumble.device:Device.get_long_term_key'],
+)
+
+
+# the same, on the code itself: the real on_pairing of both sessions fills the two stores, then the real
+# Device.encrypt / Device.get_long_term_key read them (everything inlined, no contract in between).  To keep the number
+# of paths small the sessions carry no IRK / CSRK / link key / identity address (on_pairing stores those after, and
+# independently of, the long term keys: contract of Session.on_pairing above, which covers all combinations).
+def ctl_stored(ghost):
+    return ghost.keys
+
+
+def mgr_store(ghost, session, identity_address, keys):
+    """Manager.on_pairing: files the keys in the store (recorded only; the checks on them are in the contract of on_pairing)"""
+    ghost.keys = keys
+
+
+model('ghost:Control#c', fields={}, methods={'select': Callback('select', effect=ctl_select), 'request': Callback('request', effect=ctl_request),
+                                             'stored': Callback('stored', effect=ctl_stored)})
+model('ghost:Manager#c', fields={}, methods={'on_pairing': Callback('on_pairing', effect=mgr_store, is_async=True)})
+model(
+    'bumble.smp:Session#c',
+    fields=dict(
+        manager=Inst('ghost:Manager#c'), connection=Inst('ghost:Link#p'), completed=Const(False), pairing_result=Const(None),
+        peer_bd_addr=Const(None), ctkd_task=Const(None), pairing_method=IntRange(0, 4), sc=Bool, is_initiator=Bool,
+        ltk=Bytes, ltk_ediv=Int, ltk_rand=Bytes, peer_ltk=OneOf(None, Bytes), peer_ediv=Int, peer_rand=Bytes,
+        peer_identity_resolving_key=Const(None), peer_signature_key=Const(None), link_key=Const(None),
+        initiator_key_distribution=IntRange(0, 15), responder_key_distribution=IntRange(0, 15),
+    ),
+)
+SESSION_C = Inst('bumble.smp:Session#c')
+
+
+def lemma_reconnection_code(ctl, si, sr, cdev, pdev, cconn, pconn, swapped):
+    si.on_pairing()
+    ki = ctl.stored()
+    sr.on_pairing()
+    kr = ctl.stored()
+    if swapped:
+        reconnect_and_compare(ctl, kr, ki, cdev, pdev, cconn, pconn)
+    else:
+        reconnect_and_compare(ctl, ki, kr, cdev, pdev, cconn, pconn)
+
+
+lemma(
+    'reconnection_keys_agree_code',
+    lemma_reconnection_code,
+    prop='C13',
+    params=dict(ctl=Inst('ghost:Control#c'), si=SESSION_C, sr=SESSION_C, **RECONNECT_PARAMS),
+    ghost=dict(E_GHOST, entry=Const(None), conn=Const(None), session_key=Const(None), keys=Const(None)),
+    requires=lambda si, sr, cdev, pdev, cconn, pconn: same_pairing(si, sr) + reconnection(cdev, pdev, cconn, pconn),
+    inline=['Session.on_pairing', 'Device.encrypt', 'Device.get_long_term_key', 'PairingKeys.__init__', 'PairingKeys.Key.__init__'],
+    stubs=ENCRYPT_STUBS,
+    with_enter=lambda path, cm, item=None: cm,
+    with_exit=lambda path, cm: None,
 )
